@@ -51,14 +51,28 @@ async def run_serial(job, dequed=None):
     return 1.0
 
 
+_INUSE = {}  # resource -> job whose run-function is running with it right now (real time)
+
+
 def run_thread(job, dequed=None):
     j = _jid(job.id)
     r = _REG.get(j)
-    _log("start", j, None if dequed is None else list(dequed))
+    with _LOCK:
+        _LOG.append(("start", j, None if dequed is None else list(dequed)))
+        for res in dequed or []:
+            other = _INUSE.get(res)
+            if other is not None and other in _REG:
+                _REG[other]["release"].set()  # already a violation in the log: no need to keep holding
+            _INUSE[res] = j
     if r is not None:
         r["entered"].set()
-        r["release"].wait(60)
-    _log("end", j)
+        # a run-function that does not look at its job's status: it keeps its resources until it returns
+        r["release"].wait(r.get("hold") or 60)
+    with _LOCK:
+        _LOG.append(("end", j))
+        for res in dequed or []:
+            if _INUSE.get(res) == j:
+                del _INUSE[res]
     if r is not None:
         r["finished"].set()
     return 1.0
@@ -125,6 +139,7 @@ def drive(case, vt):
     fn = run_serial if backend == "serial" else run_thread
     with _LOCK:
         _LOG.clear()
+        _INUSE.clear()
     _REG = {}
     if vt is not None:
         vt.reset()
@@ -141,7 +156,7 @@ def drive(case, vt):
     def director(stop):
         last_progress = time.time()
         while not stop.is_set():
-            cand = [j for j, r in _REG.items() if r["entered"].is_set() and not r["release"].is_set()]
+            cand = [j for j, r in _REG.items() if r["entered"].is_set() and not r["release"].is_set() and not r.get("hold")]
             if not cand:
                 if time.time() - last_progress > 8 and ev.loop is not None:  # nothing runs, nothing returns
                     ev.loop.call_soon_threadsafe(ev.loop.stop)
@@ -163,7 +178,8 @@ def drive(case, vt):
                     ev.timeout = w["timeout"]  # expiry does not cancel the task: the job waits for its run-function
                 for t, jb in enumerate(w["jobs"]):
                     if backend == "thread":
-                        _REG[nsub + t] = {"entered": threading.Event(), "release": threading.Event(), "finished": threading.Event()}
+                        _REG[nsub + t] = {"entered": threading.Event(), "release": threading.Event(), "finished": threading.Event(),
+                                          "hold": jb.get("hold")}
                         prio[nsub + t] = jb.get("prio", 0)
                 _log("submit", len(w["jobs"]))
                 res["where"] = "submit"
@@ -418,13 +434,17 @@ def _preds(case):
     total = sum(len(w["jobs"]) for w in case["waves"])
     return {"jobs>workers": any(len(w["jobs"]) > case["workers"] for w in case["waves"]),
             "jobs*pop>queue": total * case["pop"] > len(case["queue"]),
-            "close": _has_close(case)}
+            "close": _has_close(case),
+            "timeout": any(w.get("timeout") is not None for w in case["waves"])}
 
 
 def _neutralise(case, pred):
     c = json.loads(json.dumps(case))
     if pred == "jobs>workers":
         c["workers"] = max(len(w["jobs"]) for w in c["waves"])
+    elif pred == "timeout":
+        for w in c["waves"]:
+            w.pop("timeout", None)
     elif pred == "close":
         for w in c["waves"]:
             w["then"] = [a for a in _actions(w) if a["kind"] != "close"]
@@ -535,6 +555,27 @@ def _close_case(rng, backend):
             "kind": "close"}
 
 
+def gen_timeout_hold_cases(ck):
+    """thread backend, real time: `evaluator.timeout` expires while a run-function that ignores its job's
+    status keeps running (and using its resources) for several more seconds; other jobs wait for those
+    resources although worker threads are free.  A resource is in use until the run-function that received
+    it has returned, whatever the evaluator reports: the exclusivity clause is evaluated on the
+    run-functions' own start/end lines."""
+    rng = ck.rng
+    for t in range(ck.pick(1, 6)):
+        hold = ck.pick(4.5, 6.0)
+        if t % 3 == 0:
+            queue, pop, jobs = [10], 1, [{"d": 0, "prio": 0, "hold": hold}, {"d": 0, "prio": 1}]
+        elif t % 3 == 1:
+            queue, pop, jobs = [10, 11], 2, [{"d": 0, "prio": 0, "hold": hold}, {"d": 0, "prio": 1}, {"d": 0, "prio": 2}]
+        else:
+            queue, pop, jobs = [10, 11], 1, [{"d": 0, "prio": 0, "hold": hold}, {"d": 0, "prio": 1, "hold": hold},
+                                              {"d": 0, "prio": 2}, {"d": 0, "prio": 3}]
+        yield {"backend": "thread", "queue": queue, "pop": pop, "workers": len(jobs),
+               "waves": [{"jobs": jobs, "then": [{"kind": "all"}], "timeout": rng.choice([0.05, 0.2, 0.5])}],
+               "kind": "timeout-hold"}
+
+
 def gen_close_cases(ck):
     rng = ck.rng
     for _ in range(ck.pick(300, 4000)):
@@ -620,6 +661,8 @@ def check_case(ck, d, case, vt, from_corpus=False):
         ck.count("wave-larger-than-workers")
     if any(w.get("timeout") is not None for w in case["waves"]):
         ck.count("evaluator-timeout-set")
+    if any(jb.get("hold") for w in case["waves"] for jb in w["jobs"]):
+        ck.count("timeout-expires-while-run-function-keeps-running")
     conc = cur = 0
     for e in res["log"]:
         if e[0] == "start":
@@ -649,7 +692,8 @@ def check_case(ck, d, case, vt, from_corpus=False):
         seen = ck.extra_cov.setdefault("_shrunk", {})
         seen[clause] = seen.get(clause, 0) + 1
         # shrink the first few failing scenarios of every clause (thread backend: the first one)
-        if not from_corpus and bad and bad[0][0] == clause and seen[clause] <= (8 if case["backend"] == "serial" else 1):
+        slow = any(jb.get("hold") for w in case["waves"] for jb in w["jobs"])  # costs real seconds per run
+        if not from_corpus and not slow and bad and bad[0][0] == clause and seen[clause] <= (8 if case["backend"] == "serial" else 1):
             use_vt = vt if case["backend"] == "serial" else None
             cand = shrink(case, use_vt, clause)
             res2 = drive(cand, use_vt)
@@ -743,7 +787,7 @@ def run(ck):
                 if case["backend"] == "serial":
                     check_case(ck, d, case, vt, from_corpus=True)
             thread_cases = []
-            for case in itertools.chain(gen_cases(ck), gen_close_cases(ck)):
+            for case in itertools.chain(gen_cases(ck), gen_close_cases(ck), gen_timeout_hold_cases(ck)):
                 if case["backend"] == "serial":
                     check_case(ck, d, case, vt)
                 else:
